@@ -141,15 +141,14 @@ fn escape_workload(shard: u64, ops: usize) {
             let _ = esc.has_unprintable(&line);
             if let Some(expr) = t.strip_suffix(" (escaped)") {
                 escaped_marked += 1;
+                let mode = if is_ascii { "ascii" } else { "unicode" };
                 let rule = match EscapedRule::make(expr) {
                     Ok(r) => r,
-                    Err(e) if is_ascii => fail(format!("C11 ascii escaped text does not parse: {e} op {op} shard {shard}")),
-                    Err(_) => continue,
+                    Err(e) => fail(format!("C11 {mode} escaped text does not parse: {e} op {op} shard {shard}")),
                 };
-                // ascii mode decodes exactly; unicode mode has the known backslash finding (R13),
-                // which the C11 monitor judges — here only memory safety and the ascii law are checked
-                if is_ascii && !rule.matches(&line) {
-                    fail(format!("C11 ascii escaped rendering does not match its line, op {op} shard {shard}"));
+                // the escaped rendering, read back as an escaped expectation, matches its line
+                if !rule.matches(&line) {
+                    fail(format!("C11 {mode} escaped rendering does not match its line, op {op} shard {shard}"));
                 }
             } else {
                 plain += 1;
